@@ -217,19 +217,20 @@ CmdInDom(c) == \A i \in 1 .. Len(c.p) : InDom(c.p[i])
 
 \* The property's reference: the commands of an abstract path
 \*   path = sequence of contours [mv |-> <<dx, dy>>, segs |-> relative segments]
-RECURSIVE DenoteSegs(_, _, _, _)
-DenoteSegs(x, y, segs, i) ==
-  IF i > Len(segs) THEN [cmds |-> <<>>, x |-> x, y |-> y]
-  ELSE LET r == SegCmd(x, y, segs[i])
-           rest == DenoteSegs(r.x, r.y, segs, i + 1) IN
-       [cmds |-> <<r.cmd>> \o rest.cmds, x |-> rest.x, y |-> rest.y]
-RECURSIVE DenoteFrom(_, _, _, _)
-DenoteFrom(x, y, path, i) ==
-  IF i > Len(path) THEN <<>>
-  ELSE LET mx == x + path[i].mv[1] my == y + path[i].mv[2]
-           r == DenoteSegs(mx, my, path[i].segs, 1) IN
-       <<Cmd("M", <<mx, my>>)>> \o r.cmds \o <<Cmd("Z", <<>>)>> \o DenoteFrom(r.x, r.y, path, i + 1)
-PathDenote(path) == DenoteFrom(0, 0, path, 1)
+\* (TLC re-evaluates a LET definition at every reference, operator parameters are evaluated once:
+\*  recursive results are threaded through parameters / accumulators.)
+RECURSIVE DenoteSegs(_, _, _, _, _)
+DenoteSegs(x, y, segs, i, acc) ==
+  IF i > Len(segs) THEN [cmds |-> acc, x |-> x, y |-> y]
+  ELSE LET r == SegCmd(x, y, segs[i]) IN DenoteSegs(r.x, r.y, segs, i + 1, Append(acc, r.cmd))
+RECURSIVE DenoteFrom(_, _, _, _, _)
+DenoteContour(r, path, i, acc) ==      \* r: the denoted segments of contour i, which started with acc
+  DenoteFrom(r.x, r.y, path, i + 1, r.cmds \o <<Cmd("Z", <<>>)>>)
+DenoteFrom(x, y, path, i, acc) ==
+  IF i > Len(path) THEN acc
+  ELSE LET mx == x + path[i].mv[1] my == y + path[i].mv[2] IN
+       DenoteContour(DenoteSegs(mx, my, path[i].segs, 1, Append(acc, Cmd("M", <<mx, my>>))), path, i, acc)
+PathDenote(path) == DenoteFrom(0, 0, path, 1, <<>>)
 
 \* "one closed contour per move": M (L|C)* Z repeated
 RECURSIVE WellBracketed(_, _, _)
@@ -261,14 +262,18 @@ AxisScalar(ax, c) ==
   ELSE IF c < s \/ c > e THEN <<0, 1>>
   ELSE IF c = p THEN <<1, 1>>
   ELSE IF c < p THEN Frac(c - s, p - s) ELSE Frac(e - c, e - p)
+\* a region axis is well formed when start <= peak <= end and the region does not straddle zero
+\* with a non-zero peak (OpenType: otherwise the axis is to be ignored; not modelled, not judged)
+AxisWF(ax) == ax[1] <= ax[2] /\ ax[2] <= ax[3] /\ ~(ax[1] < 0 /\ ax[3] > 0 /\ ax[2] # 0)
+MulScal(a, r) ==
+  IF a[1] = 0 \/ r[1] = 0 THEN (IF r[2] = 0 THEN r ELSE <<0, 1>>)
+  ELSE IF a[2] > 32768 \/ r[2] > 32768 \/ r[2] = 0 THEN <<0, 0>>     \* outside the modelled domain
+  ELSE Frac(a[1] * r[1], a[2] * r[2])
 RECURSIVE RegionScalarFrom(_, _, _)
 RegionScalarFrom(region, tuple, i) ==
   IF i > Len(region) \/ i > Len(tuple) THEN <<1, 1>>
-  ELSE LET a == AxisScalar(region[i], tuple[i])
-           r == RegionScalarFrom(region, tuple, i + 1) IN
-       IF a[1] = 0 \/ r[1] = 0 THEN <<0, 1>>
-       ELSE IF a[2] > 32768 \/ r[2] > 32768 THEN <<0, 0>>     \* outside the exact domain
-       ELSE Frac(a[1] * r[1], a[2] * r[2])
+  ELSE IF ~AxisWF(region[i]) THEN <<0, 0>>
+  ELSE MulScal(AxisScalar(region[i], tuple[i]), RegionScalarFrom(region, tuple, i + 1))
 RegionScalar(region, tuple) == RegionScalarFrom(region, tuple, 1)
 
 ---------------------------------------------------------------------------
@@ -408,16 +413,27 @@ Op_vsindex(fc, m) ==
   ELSE Clear([m EXCEPT !.vsindex = m.stack[1] \div ONE])
 
 \* CFF2 blend: n*(k+1) operands and n -> n values, value_i = default_i + sum_j scalar_j * delta_(i,j)
-RECURSIVE BlendSum(_, _, _, _, _)
-BlendSum(deltas, scal, i, k, j) ==      \* [ok, v]: sum over regions j..k of scalar_j * delta_(i,j)
-  IF j > k THEN [ok |-> TRUE, v |-> 0]
-  ELSE LET d == deltas[(i - 1) * k + j]
-           s == scal[j]
-           rest == BlendSum(deltas, scal, i, k, j + 1) IN
-       IF s[2] = 0 \/ ~rest.ok THEN [ok |-> FALSE, v |-> 0]
-       ELSE IF s[1] = 0 THEN rest
-       ELSE IF d % s[2] # 0 THEN [ok |-> FALSE, v |-> 0]          \* not exactly representable
-       ELSE [ok |-> TRUE, v |-> rest.v + (d \div s[2]) * s[1]]
+\* scalar * delta for a scalar <<num, den>> with 0 <= num <= den <= 32768: the floor of the exact
+\* product and whether it is exact (a 16.16 delta times a fraction need not be a 16.16 number)
+MulFrac(d, s) ==
+  LET q == d \div s[2]  r == d % s[2] IN
+  [v |-> q * s[1] + (r * s[1]) \div s[2], exact |-> (r * s[1]) % s[2] = 0]
+RECURSIVE BlendSum(_, _, _, _, _, _)
+BlendSum(deltas, scal, i, k, j, acc) ==      \* acc = [v, exact]: sum over the regions before j
+  IF j > k THEN acc
+  ELSE IF scal[j][1] = 0 THEN BlendSum(deltas, scal, i, k, j + 1, acc)
+  ELSE LET p == MulFrac(deltas[(i - 1) * k + j], scal[j]) IN
+       BlendSum(deltas, scal, i, k, j + 1, [v |-> acc.v + p.v, exact |-> acc.exact /\ p.exact])
+
+BlendApply(m, base, n, defaults, sums) ==
+  IF \E i \in 1 .. n : ~InDom(defaults[i] + sums[i].v) THEN Fail(m, "Range")
+  ELSE [m EXCEPT !.stack = SubSeq(m.stack, 1, base) \o [i \in 1 .. n |-> defaults[i] + sums[i].v],
+                 !.fuzzy = @ \/ \E i \in 1 .. n : ~sums[i].exact,
+                 !.seenBlend = TRUE]
+
+BlendWith(m, base, n, k, defaults, deltas, scal) ==
+  IF \E j \in 1 .. k : scal[j][2] = 0 THEN Fail(m, "RegionNotModelled")
+  ELSE BlendApply(m, base, n, defaults, [i \in 1 .. n |-> BlendSum(deltas, scal, i, k, 1, [v |-> 0, exact |-> TRUE])])
 
 Op_blend(fc, m) ==
   IF fc.kind # "cff2" THEN Fail(m, "InvalidOperator")
@@ -438,15 +454,10 @@ Op_blend(fc, m) ==
   ELSE IF k > 15 \/ ~AllWithin(SubSeq(m.stack, have - need + 1, have - need + n), LIM \div 2)
             \/ ~AllWithin(SubSeq(m.stack, have - need + n + 1, have), BLIM) THEN Fail(m, "Range")
   ELSE
-  LET base == have - need
-      defaults == SubSeq(m.stack, base + 1, base + n)
-      deltas == SubSeq(m.stack, base + n + 1, have)
-      scal == [j \in 1 .. k |-> RegionScalar(regs[j], fc.tuple)]
-      sums == [i \in 1 .. n |-> BlendSum(deltas, scal, i, k, 1)] IN
-  IF \E i \in 1 .. n : ~sums[i].ok THEN Fail(m, "InexactBlend")
-  ELSE IF \E i \in 1 .. n : ~InDom(defaults[i] + sums[i].v) THEN Fail(m, "Range")
-  ELSE [m EXCEPT !.stack = SubSeq(m.stack, 1, base) \o [i \in 1 .. n |-> defaults[i] + sums[i].v],
-                 !.seenBlend = TRUE]
+  BlendWith(m, have - need, n, k,
+            SubSeq(m.stack, have - need + 1, have - need + n),        \* the n default values
+            SubSeq(m.stack, have - need + n + 1, have),               \* n groups of k deltas
+            [j \in 1 .. k |-> RegionScalar(regs[j], fc.tuple)])
 
 ---------------------------------------------------------------------------
 \* One step: one item of the charstring on top of the call stack
